@@ -706,14 +706,16 @@ func productOverflowGuarded(p *core.Program, fn *ssa.Function, f1, f2 string) bo
 func absentCheckKeyAgreement(r *core.Run, rule string, hs []*core.Handler) int {
 	p := r.Prog
 	nAbs := 0
+	type site struct {
+		fn     *ssa.Function
+		call   ssa.CallInstruction
+		callee *ssa.Function
+		op     *core.StoreOp
+	}
 	for _, h := range hs {
+		var getters, setters []site
 		for _, fn := range p.Summary(h.Fn).Funcs {
-			type site struct {
-				call   ssa.CallInstruction
-				callee *ssa.Function
-				op     *core.StoreOp
-			}
-			var getters, setters []site
+			fn := fn
 			allInstrs(fn, func(in ssa.Instruction) {
 				call, ok := in.(ssa.CallInstruction)
 				if !ok {
@@ -723,44 +725,65 @@ func absentCheckKeyAgreement(r *core.Run, rule string, hs []*core.Handler) int {
 					if gi := p.StoreGetter(cal); gi != nil && gi.Found {
 						for _, o := range p.StoreOps(cal) {
 							if o.Kind == "Get" {
-								getters = append(getters, site{call, cal, o})
+								getters = append(getters, site{fn, call, cal, o})
 							}
 						}
 					}
 					for _, o := range p.StoreOps(cal) {
 						if o.Kind == "Set" {
-							setters = append(setters, site{call, cal, o})
+							setters = append(setters, site{fn, call, cal, o})
 						}
 					}
 				}
 			})
-			for _, g := range getters {
-				name := g.op.Module + "/" + g.op.Prefix
-				for _, st := range setters {
-					if st.op.Module+"/"+st.op.Prefix != name {
+		}
+		for _, g := range getters {
+			name := g.op.Module + "/" + g.op.Prefix
+			for _, st := range setters {
+				if st.op.Module+"/"+st.op.Prefix != name {
+					continue
+				}
+				// is the write behind Found(this getter)=false ?
+				gcall := g.call
+				notFound := func(ca *core.CondAtom, truth bool) bool {
+					return ca.Kind == "found" && !truth && ca.Call != nil && ssa.CallInstruction(ca.Call) == gcall
+				}
+				construct := fmt.Sprintf("%s:absent-check-key=written-key:%s", h.Key(), name)
+				if g.fn != st.fn {
+					// validate / apply split: the absence test and the write sit in sibling helpers of the handler; judge
+					// the handler's executions with the helpers executed in line
+					if g.fn == h.Fn || st.fn == h.Fn {
 						continue
 					}
-					// is the write behind Found(this getter)=false ?
-					gcall := g.call
-					notFound := func(ca *core.CondAtom, truth bool) bool {
-						return ca.Kind == "found" && !truth && ca.Call != nil && ssa.CallInstruction(ca.Call) == gcall
-					}
-					if core.PathExists(fn, p.PassEdges(fn, notFound), st.call, nil) {
-						continue // not a create-if-absent pair
-					}
-					nAbs++
-					gt := keyTermsAtCall(p, g.call, g.callee, g.op)
-					wt := keyTermsAtCall(p, st.call, st.callee, st.op)
-					same := len(gt) == len(wt)
-					for i := 0; same && i < len(gt); i++ {
-						if gt[i] != wt[i] || strings.HasPrefix(gt[i], "?") {
-							same = false
+					execs, complete := p.AbstractExecutions(h.Fn)
+					performed := false
+					for i := range execs {
+						if _, ok := execs[i].Calls[st.call]; ok {
+							performed = true
 						}
 					}
-					r.Check(same, rule, fmt.Sprintf("%s:absent-check-key=written-key:%s", h.Key(), name), p.InstrPos(st.call),
-						"the key tested for absence is the key written: "+strings.Join(wt, " / "),
-						fmt.Sprintf("a record is created behind 'not found' for key %v but written under key %v: an existing record of another account can be overwritten", gt, wt))
+					if !complete || !performed || !p.ExecsGuarded(execs, st.call, notFound, true) {
+						continue
+					}
+					nAbs++
+					r.Ok(rule, construct, p.InstrPos(st.call), "the write is performed only on executions that found the key absent (test in "+g.fn.Name()+", write in "+st.fn.Name()+"); the key terms live in different helpers and are not compared")
+					continue
 				}
+				if p.ReachesUnguarded(g.fn, st.call, notFound) {
+					continue // not a create-if-absent pair
+				}
+				nAbs++
+				gt := keyTermsAtCall(p, g.call, g.callee, g.op)
+				wt := keyTermsAtCall(p, st.call, st.callee, st.op)
+				same := len(gt) == len(wt)
+				for i := 0; same && i < len(gt); i++ {
+					if gt[i] != wt[i] || strings.HasPrefix(gt[i], "?") {
+						same = false
+					}
+				}
+				r.Check(same, rule, construct, p.InstrPos(st.call),
+					"the key tested for absence is the key written: "+strings.Join(wt, " / "),
+					fmt.Sprintf("a record is created behind 'not found' for key %v but written under key %v: an existing record of another account can be overwritten", gt, wt))
 			}
 		}
 	}
@@ -956,6 +979,12 @@ func decToIntConversions(p *core.Program, v ssa.Value) []string {
 		case *ssa.Field:
 			walk(y.X, depth+1)
 		case *ssa.FieldAddr:
+			walk(y.X, depth+1)
+		case *ssa.IndexAddr:
+			walk(y.X, depth+1) // an element of a slice built elsewhere (a list of computed payouts)
+		case *ssa.Index:
+			walk(y.X, depth+1)
+		case *ssa.Lookup:
 			walk(y.X, depth+1)
 		case *ssa.BinOp:
 			walk(y.X, depth+1)
